@@ -20,6 +20,8 @@ type Ctl struct {
 	// Delay: points at which a seeded delay (nothing / yield / short sleep) is injected. nil map = none; key "*" = all.
 	Delay    map[string]bool
 	MaxSleep time.Duration
+	// Long: per-point upper bound of the sleep, overriding MaxSleep (rarely hit points inside narrow windows).
+	Long map[string]time.Duration
 
 	// Crash: the process exits (like SIGKILL: nothing is flushed) at the CrashAt-th hit of CrashPoint.
 	CrashPoint string
@@ -116,6 +118,9 @@ func (c *Ctl) at(point string) {
 			ms := c.MaxSleep
 			if ms == 0 {
 				ms = 300 * time.Microsecond
+			}
+			if l, ok := c.Long[point]; ok {
+				ms = l
 			}
 			time.Sleep(time.Duration(z>>8) % ms)
 		}
